@@ -55,6 +55,8 @@ RULE_POOL = [
     # left-context assertions: look-behind, start of string, word boundary (real \\b), negative look-behind
     # a callable that takes the encoder (u2lobj) and encodes an inner text with it while the outer run is in progress
     ('nest', [('a%', '%\u00e9', 2), ('\u03b1', 'e%', 1)], ''),
+    # a rule whose own protection setting is a callable
+    ('dict', [(37, '\\cw'), (101, 'E')], 'fn-angle'),
     ('regex', [('a', 'A', ('in', [37])), ('e', 'E', ('bos', [])), ('a', 'W', ('wordstart', None)), ('%', 'N', ('notin', [97, 10]))], ''),
 ]
 
@@ -183,6 +185,11 @@ class LoggingCallable(object):
         return None
 
 
+def _prot(name):
+    """scheme name of the model -> value of the replacement_latex_protection option ('fn-angle': a callable)"""
+    return (lambda r: '<' + r + '>') if name == 'fn-angle' else name
+
+
 def build_encoder(c, pool=RULE_POOL, cls=None):
     from pylatexenc.latexencode import (UnicodeToLatexEncoder, UnicodeToLatexConversionRule, RULE_DICT, RULE_REGEX,
                                         RULE_CALLABLE)
@@ -191,7 +198,7 @@ def build_encoder(c, pool=RULE_POOL, cls=None):
     nested = False
     for j, i in enumerate(c['rules']):
         t, ent, prot = pool[i]
-        kw = dict(replacement_latex_protection=prot) if prot else {}
+        kw = dict(replacement_latex_protection=_prot(prot)) if prot else {}
         if t == 'dict':
             rules.append(UnicodeToLatexConversionRule(RULE_DICT, dict(ent), **kw))
         elif t == 'regex':
@@ -208,7 +215,7 @@ def build_encoder(c, pool=RULE_POOL, cls=None):
     kw = {}
     if cls is not None:
         kw['latex_string_class'] = cls
-    enc = UnicodeToLatexEncoder(conversion_rules=rules, replacement_latex_protection=c['scheme'],
+    enc = UnicodeToLatexEncoder(conversion_rules=rules, replacement_latex_protection=_prot(c['scheme']),
                                 unknown_char_policy=c['policy'], non_ascii_only=c['nao'], unknown_char_warning=False, **kw)
     if nested:
         callables = {}       # a nested run consults the other callables too: the consultation log is not compared
